@@ -14,7 +14,14 @@ import (
 // instance from the given odd prime factors p and q.
 // Returns ct.False if the inputs are invalid (not odd primes or equal).
 func NewOddPrimeFactors(p, q *numct.Nat) (factors *OddPrimeFactors, ok ct.Bool) {
+	if p == nil || q == nil {
+		return nil, ct.False
+	}
 	allOk := p.Equal(q).Not() & p.IsProbablyPrime() & q.IsProbablyPrime() & p.IsOdd() & q.IsOdd()
+	if allOk == ct.False {
+		// The precomputation below is undefined for such inputs (it panics for zero).
+		return nil, ct.False
+	}
 
 	params, ok := crt.PrecomputePairExtended(p, q)
 	allOk &= ok
